@@ -256,7 +256,9 @@ def launch(prop_id: str, tier: str, seed: int, runs: int | None = None, hashseed
         cmd = [sys.executable, str(VERIF / "vsim" / "main.py"), "batch", prop_id, "--seed", str(seed),
                "--tier", tier, "--indices", f"{b}:{runs}:{nbatch}", "--out", str(out)]
         lf = open(log, "w")
-        procs.append((b, subprocess.Popen(cmd, env=batch_env(hs), stdout=lf, stderr=subprocess.STDOUT, cwd=str(VERIF), start_new_session=True), out, log, lf, hs))
+        benv = batch_env(hs)
+        benv.setdefault("VSIM_REPLAY_DIR", str(outdir / "replays"))   # the launcher keeps only what it reports
+        procs.append((b, subprocess.Popen(cmd, env=benv, stdout=lf, stderr=subprocess.STDOUT, cwd=str(VERIF), start_new_session=True), out, log, lf, hs))
     prop = importlib.import_module(PROPS[prop_id])
     limit = wall_limit or prop.WALL[tier]
     deadline = time.time() + limit
@@ -282,6 +284,17 @@ def launch(prop_id: str, tier: str, seed: int, runs: int | None = None, hashseed
             continue
         outputs.append(json.loads(out.read_text()))
     return outputs, herr, outdir
+
+
+def keep_replay(path: str) -> str:
+    """Move a reported replay file out of the batch scratch into /verif/replays (or VSIM_REPLAY_DIR)."""
+    import shutil
+    d = Path(os.environ.get("VSIM_REPLAY_DIR", VERIF / "replays"))
+    d.mkdir(parents=True, exist_ok=True)
+    dst = d / Path(path).name
+    if Path(path).resolve() != dst.resolve():
+        shutil.copyfile(path, dst)
+    return str(dst)
 
 
 def verify_replay(path: str, hashseed: int, timeout=900) -> tuple[bool, str]:
@@ -326,6 +339,7 @@ def check(prop_id: str, tier: str, seed: int) -> int:
             continue
         ok, tail = verify_replay(f["replay"], f["hashseed"])
         if ok:
+            f["replay"] = keep_replay(f["replay"])
             violations.append(f)
         else:
             herr.append({"error": f"failure did not reproduce on replay: {sig}", "replay": f["replay"], "tail": tail})
@@ -343,6 +357,8 @@ def check(prop_id: str, tier: str, seed: int) -> int:
                "wall_s": round(wall, 2), "violations": len(violations)})
     (VERIF / "evidence").mkdir(exist_ok=True)
     (VERIF / "evidence" / f"{prop_id}.json").write_text(json.dumps(ev, indent=1, sort_keys=True))
+    for f in unverified:
+        f["replay"] = keep_replay(f["replay"])
     import shutil
     shutil.rmtree(outdir, ignore_errors=True)
     for f in violations:
